@@ -34,7 +34,7 @@ def documented_table(repo="/repo"):
             if not line.startswith("|"):
                 break
             cells = re.split(r"(?<!\\)\|", line.strip().strip("|"))
-            if len(cells) < 2 or set(cells[0].strip()) <= set("-"):
+            if len(cells) < 2 or re.fullmatch(r"-{2,}", cells[0].strip()):
                 continue
             name = cells[0].strip().replace("\\|", "|")
             try:
